@@ -122,7 +122,9 @@ PREFIXES = ["", "<!DOCTYPE html>", "<html>", "<head>", "<head><noscript>", "<hea
             "<frameset></frameset>", "<frameset></frameset></html>", "<svg>", "<svg><g>", "<svg><foreignObject>", "<svg><desc>", "<svg><title>", "<math>",
             "<math><mi>", "<math><mtext><b>", "<math><annotation-xml>", "<math><annotation-xml encoding=text/html>", "<table><svg>", "<select><svg>",
             "<svg><script>", "<svg><style>", "<!DOCTYPE html PUBLIC \"-//W3C//DTD HTML 3.2//EN\"><p>", "<table><tr><td><b><p>", "<li><div>", "<dd><address>",
-            "<table><caption><b>", "<table><tbody><svg>", "<template>", "<h1><b>", "<a><p>", "<nobr><p>", "<button><p>", "<form><table>", "<table><form>"]
+            "<table><caption><b>", "<table><tbody><svg>", "<template>", "<h1><b>", "<a><p>", "<nobr><p>", "<button><p>", "<form><table>", "<table><form>",
+            # a formatting element that is open but not in scope (adoption agency step "in the stack but not in scope")
+            "<b><table>", "<i><svg><foreignObject>", "<a><math><mi>", "<em><svg><desc>", "<b><table><tbody>"]
 PROBE_TEXT = ["x", " ", "\t", "\n", "\x0c", "\x00", "&amp;", "x y", " x", "<!--c-->", "<!DOCTYPE html>", ""]
 SUFFIXES = ["y<!--z-->", "<b>y</b><p>z"]
 
